@@ -21,7 +21,8 @@ rundemo() { # run from the module root that owns pkgdir
   local rel=${W}/$pkgdir; rel=${rel#$mod}; rel=.${rel}
   # pull out the -run pattern of the recorded command (fallback: run everything in the package)
   local pat=$(echo "$democmd" | grep -oE -- "-run[ =]+'?\"?[^ '\"]+" | sed -E "s/-run[ =]+['\"]?//" | head -1)
-  (cd $mod && timeout 900 go test -mod=mod -vet=off -count=1 ${pat:+-run "$pat"} $rel > $W/demo.log 2>&1)
+  local race=""; echo "$democmd" | grep -q -- "-race" && race="-race"
+  (cd $mod && timeout 1800 go test $race -mod=mod -vet=off -count=1 ${pat:+-run "$pat"} $rel > $W/demo.log 2>&1)
   local rc=$?
   if grep -q "no tests to run" $W/demo.log; then echo "NOT-CONFIRMED the demo command selects no test (pattern: $pat)"; exit 1; fi
   return $rc
@@ -38,7 +39,9 @@ for f in $(grep '^+++ b/' $D/patch.diff | sed 's#+++ b/##'); do
   (cd $mod && go build ./... > $W/build.log 2>&1) || { echo "NOT-CONFIRMED does not compile"; tail -10 $W/build.log; exit 1; }
   (cd $mod && timeout 1500 go test -mod=mod -vet=off -count=1 $rel > $W/t.log 2>&1) || {
     # tolerate tests that also fail without the patch (pre-existing/flaky): re-run the failing ones once
-    bad=$(grep -E '^--- FAIL' $W/t.log | awk '{print $3}' | sort -u | tr '\n' '|' | sed 's/|$//')
+    # tests that fail or flake on the pinned baseline as well (BASELINE.json always_fail / flaky) do not count
+    bad=$(grep -E '^--- FAIL' $W/t.log | awk '{print $3}' | sed 's#/.*##' | grep -v -E '^(TestSaveGenesis_InvalidPath|TestClientInfoMethods|TestDiscovery|TestHTTPServerContextCancellation|TestSequencer_GetNextBatch_FromDALayer)$' | sort -u | tr '\n' '|' | sed 's/|$//')
+    [ -z "$bad" ] && grep -qE '^--- FAIL' $W/t.log && continue
     if [ -n "$bad" ]; then (cd $mod && go test -mod=mod -vet=off -count=1 -run "^($bad)\$" $rel > $W/t2.log 2>&1) || { fail=1; echo "existing tests fail with the patch in $d: $bad"; }; else fail=1; tail -5 $W/t.log; fi
   }
 done
